@@ -23,6 +23,9 @@ type ObjV struct {
 type FnV struct {
 	Decl *N
 	Env  *Scope
+	Seq  int      // creation time
+	Free []string // free names of the body (computed lazily)
+	free bool
 }
 type BuiltinV struct{ Name string }
 
@@ -53,6 +56,7 @@ type Scope struct {
 	Vars   map[string]Value
 	Parent *Scope
 	ID     int
+	Seq    map[string]int // declaration time of each name
 }
 
 func (s *Scope) lookup(name string) *Scope {
@@ -137,6 +141,8 @@ type Machine struct {
 	globals *Scope
 	nextID  int
 	retVal  Value
+	seq     int
+	fns     []*FnV
 	lastExprVal Value
 	ctlLine int
 	depth   int
@@ -153,6 +159,8 @@ func (m *Machine) Run(prog []*N) (res *Result) {
 		m.MaxSteps = 20000
 	}
 	m.res = Result{}
+	m.fns = nil
+	m.seq = 0
 	m.globals = m.newScope(nil)
 	for _, b := range Builtins {
 		m.globals.Vars[b] = &BuiltinV{b}
@@ -193,6 +201,89 @@ func (m *Machine) Run(prog []*N) (res *Result) {
 	return
 }
 
+// declare binds name in sc, and enforces the domain restriction of C03: a
+// declaration made in the declaring scope of an existing closure (or an
+// ancestor of it), closer than the binding that closure's free use of the
+// name resolved to when it was created, puts the program outside the domain
+// (static and dynamic resolution differ there).
+func (m *Machine) declare(sc *Scope, name string, v Value) {
+	m.seq++
+	for _, f := range m.fns {
+		if !f.mentionsFree(name) {
+			continue
+		}
+		for p := f.Env; p != nil; p = p.Parent {
+			if p == sc {
+				m.unspec("declaration of a name after a closure reading it from an enclosing scope was created")
+			}
+			if s, ok := p.Seq[name]; ok && s < f.Seq {
+				break // the closure's name resolved here at creation; sc is not closer
+			}
+		}
+	}
+	sc.Vars[name] = v
+	if sc.Seq == nil {
+		sc.Seq = map[string]int{}
+	}
+	sc.Seq[name] = m.seq
+}
+
+func (f *FnV) mentionsFree(name string) bool {
+	if !f.free {
+		f.free = true
+		set := map[string]bool{}
+		freeNames(f.Decl, map[string]bool{}, set)
+		for k := range set {
+			f.Free = append(f.Free, k)
+		}
+	}
+	for _, n := range f.Free {
+		if n == name {
+			return true
+		}
+	}
+	return false
+}
+
+// freeNames collects identifiers used in n that are not bound by an enclosing
+// parameter list / earlier declaration of the same function body (textual
+// order; conservative: block structure inside the body is ignored for
+// declarations, i.e. a name declared anywhere earlier in the body is bound).
+func freeNames(n *N, bound map[string]bool, out map[string]bool) {
+	if n == nil {
+		return
+	}
+	switch n.K {
+	case "fun":
+		inner := map[string]bool{}
+		for k := range bound {
+			inner[k] = true
+		}
+		bound[n.S] = true
+		inner[n.S] = true
+		for _, p := range n.Names {
+			inner[p] = true
+		}
+		for _, s := range n.A {
+			freeNames(s, inner, out)
+		}
+		return
+	case "id", "asg":
+		if !bound[n.S] {
+			out[n.S] = true
+		}
+	case "var":
+		for i, name := range n.Names {
+			freeNames(n.A[i], bound, out)
+			bound[name] = true
+		}
+		return
+	}
+	for _, k := range n.A {
+		freeNames(k, bound, out)
+	}
+}
+
 func (m *Machine) fail(kind string, line int, msg string) {
 	panic(runtimeErr{RunErr{Kind: kind, Line: line, Msg: msg}})
 }
@@ -226,7 +317,7 @@ func (m *Machine) exec(s *N, sc *Scope) ctl {
 			if _, ok := sc.Vars[name]; ok {
 				m.failN("redeclare", s.Line, "redeclaration of "+name, name)
 			}
-			sc.Vars[name] = v
+			m.declare(sc, name, v)
 		}
 	case "block":
 		inner := m.newScope(sc)
@@ -289,7 +380,13 @@ func (m *Machine) exec(s *N, sc *Scope) ctl {
 		m.ctlLine = s.Line
 		return ctlReturn
 	case "fun":
-		sc.Vars[s.S] = &FnV{Decl: s, Env: sc}
+		if _, ok := sc.Vars[s.S]; ok {
+			m.unspec("redeclaration of a function name")
+		}
+		f := &FnV{Decl: s, Env: sc}
+		m.declare(sc, s.S, f)
+		f.Seq = m.seq
+		m.fns = append(m.fns, f)
 	default:
 		panic("model exec: unknown statement " + s.K)
 	}
@@ -657,6 +754,7 @@ func (m *Machine) call(e *N, sc *Scope) Value {
 		}
 		act := m.newScope(f.Env)
 		act.Vars[f.Decl.S] = f
+		act.Seq = map[string]int{}
 		for i, p := range f.Decl.Names {
 			if _, dup := act.Vars[p]; dup && p != f.Decl.S {
 				m.unspec("duplicate parameter names")
